@@ -29,7 +29,10 @@ def run(tier):
                       "by the library and decoded by the specification; random glyphs x tuples go through the optimiser, "
                       "GlyphVariations/Gvar, are read back and judged (required exact, omitted within tolerance), and a "
                       "synthetic variable font is drawn by skrifa at the default, every peak and half way and compared "
-                      "with default + scalar * delta.")
+                      "with default + scalar * delta. Scaled / stretched contours (no forced point) and rigid-run deltas (pinned "
+                      "points in zero runs of sparse tuples) are part of the recorded families. The serialized tuple data of the "
+                      "corpus fonts' glyphs is sliced from the raw gvar bytes and GvarTrace!TGvarRead decodes point numbers and "
+                      "deltas with PackedRuns.tla against the lists read-fonts yields.")
     ck.assumptions = ["the tuple headers / serialized data of gvar are read through read-fonts (only the packed runs have an "
                       "independent TLA+ decoder)", "application check restricted to accumulated deltas within the scaler's "
                       "16.16 range; tolerances never sit on a representable boundary",
@@ -51,6 +54,11 @@ def run(tier):
         res = vlib.run_harness("fv-write", ["c10", "random", "--seed", vlib.seed() + i, "--n", 150 if tier == "quick" else 600, "--out", t2])
         ck.add_harness("record:random:%d" % i, res, traces=False)
         validate(ck, wd, "random:%d" % i, t2)
+    # V on the corpus: serialized tuple data of the variable fonts' glyphs decoded by PackedRuns.tla vs read-fonts
+    t3 = os.path.join(wd, "corpus.ndjson")
+    res = vlib.run_harness("fv-write", ["c10", "corpus", "--per-font", 12 if tier == "quick" else 60, "--out", t3])
+    ck.add_harness("record:corpus", res, traces=False)
+    validate(ck, wd, "corpus", t3)
     return ck.finish()
 
 
